@@ -56,13 +56,19 @@ fn droppable() -> Vec<Pay> {
 
 pub fn profile(prop: &str, tier: &str) -> Profile {
     let thorough = tier == "thorough";
-    let mut caps: Vec<Cap> = CAPS_ALL.to_vec();
+    // small capacities keep "full" easy to reach; a sixth of the cases use larger ones
+    let mut caps: Vec<Cap> = Vec::new();
+    for c in CAPS_ALL {
+        caps.push(*c);
+        caps.push(*c);
+    }
+    caps.extend_from_slice(&[Cap::N(5), Cap::N(9)]);
     if thorough {
-        caps.extend_from_slice(&[Cap::N(4), Cap::N(6), Cap::N(8)]);
+        caps.extend_from_slice(&[Cap::N(4), Cap::N(6), Cap::N(8), Cap::N(17)]);
     }
     let base = Profile {
         name: "base",
-        threads: (2, 4),
+        threads: (2, 5),
         max_ops: if thorough { 10 } else { 6 },
         weights: cat(&[SENDS, RECVS, HANDLES]),
         caps: caps.clone(),
@@ -116,6 +122,12 @@ pub fn profile(prop: &str, tier: &str) -> Profile {
                 (K::StreamNext, 3),
                 (K::Yield, 2),
             ]),
+            pays: {
+                let mut v = ALL_PAY.to_vec();
+                v.push(Pay::PBIG);
+                v.push(Pay::PA64);
+                v
+            },
             ..base
         },
         "C05" => Profile {
@@ -181,7 +193,7 @@ pub fn profile(prop: &str, tier: &str) -> Profile {
                 (K::Yield, 2),
                 (K::TrySendRt, 1),
             ]),
-            pays: vec![Pay::P1, Pay::P8, Pay::P16, Pay::P40, Pay::PR, Pay::U64, Pay::U128],
+            pays: vec![Pay::P1, Pay::P8, Pay::P16, Pay::P40, Pay::PR, Pay::U64, Pay::U128, Pay::PBIG, Pay::PA64],
             max_sched: 200,
             ..base
         },
